@@ -158,7 +158,7 @@ pub fn run(ctx: &Ctx) -> Report {
          non-trivial = the single-chunk output differs from the input AND at least one evaluated cut falls strictly inside a tag, an attribute value or a multi-byte character (classified with the real tokenizer on the whole body); distinct by case hash",
     );
     rep.assume("bodies are valid UTF-8 (invalid bytes are C04's subject); schedules with a cut inside the zones of known finding D7 (inside a comment / doctype / CDATA token, or between a raw-text start tag and the end of its end tag) are excluded by construction while that finding is listed, and counted");
-    rep.add(run_part(ctx, "bodies", ctx.cases(4_000, 150_000), strategy, check, &[]));
+    rep.add(run_part(ctx, "bodies", ctx.cases(30_000, 1_000_000), strategy, check, &[]));
     rep
 }
 
